@@ -41,7 +41,7 @@ PROPS['C13'] = {
                   'AnsiColor::{bright,is_bright,on,on_default}', 'Ansi256Color::{into_ansi,from_ansi,index}', 'Color::{on,on_default}, From impls', 'RgbColor::{r,g,b}'],
     'quick': {'kani': [{'crate': 'anstyle', 'harnesses': ALG, 'timeout': 900}]},
     'thorough': {'kani': [{'crate': 'anstyle', 'harnesses': ALG, 'timeout': 1800}]},
-    'bounded': {'alg_effects_debug': 'Debug text checked concretely for the empty set, 12 singletons, 66 pairs and the full set (80 of 4096 sets); member order for all sets from alg_effects_iter (complete)'},
+    'bounded': {'alg_effects_debug': 'Debug text checked concretely for five representative sets (empty, BOLD, STRIKETHROUGH, UNDERLINE|BLINK, DIMMED|ITALIC|HIDDEN); member order for all 4096 sets from alg_effects_iter (complete)'},
     'assumptions': ['core::fmt machinery (format_args!, Formatter::write_str/pad) as compiled by Kani'],
     'explanation': 'Loop-free or table-length-bounded (12) harnesses over full symbolic domains: complete proofs, except the Debug text which is bounded in set size.',
 }
@@ -69,4 +69,37 @@ PROPS['C16']['thorough'] = PROPS['C16']['quick']
 NOT_APPLICABLE = {
     'C14': 'whole-document XML/string property through format!, html_escape, unicode-width and BTreeMap: no contract language available here can state well-formedness over String; Verus has no str/format reasoning and Kani does not terminate on this code (DESIGN.md section 6)',
     'C15': 'segmentation is the cansi crate, escaping/rendering the roff crate (opaque Roff type); the repository-own logic is five finite leaf functions that do not decide the statement (DESIGN.md section 6)',
+}
+
+REND_QUICK = ['render_write_code_all', 'render_buffer_capacity', 'render_color_display', 'render_color_io', 'render_color_entry_points',
+              'render_effects_all', 'render_reset_forms', 'render_style_roundtrip', 'render_flags_width_right', 'render_flags_alt_width']
+REND_ALL = REND_QUICK + ['render_flags_fill_center', 'render_flags_precision', 'render_flags_zero', 'render_flags_alt_precision', 'render_flags_alt_fill']
+PROPS['C05'] = {
+    'level': 'proof',
+    'functions': ['anstyle::color::DisplayBuffer::{write_str,write_code,as_str,write_to}', 'AnsiColor/Ansi256Color/RgbColor::{as_fg_buffer,as_bg_buffer,as_underline_buffer,render_fg,render_bg}',
+                  'Color::{render_fg,render_bg,render_underline,write_fg_to,write_bg_to,write_underline_to}', 'Effects::{render,write_to}', 'EffectsDisplay::fmt',
+                  'Style::{fmt_to,write_to,render,render_reset,write_reset_to}', 'Display for Style/StyleDisplay/Reset/DisplayBuffer/NullFormatter'],
+    'quick': {'kani': [{'crate': 'anstyle', 'harnesses': REND_QUICK, 'timeout': 1500, 'mem_gb': 12}]},
+    'thorough': {'kani': [{'crate': 'anstyle', 'harnesses': REND_ALL, 'timeout': 3000, 'mem_gb': 12}]},
+    'assumptions': ['core::fmt machinery (format_args!, Formatter::write_str/pad, fmt::write) as compiled by Kani',
+                    'S4 (spec/sgr.rs) is the reference SGR interpreter; underline kinds are independent bits (the only reading under which all 4096 effect sets can round-trip)'],
+    'explanation': 'Symbolic style over the full domain (16+256+2^24 colours per slot x 4096 effect sets) rendered through both paths into a fixed buffer and interpreted by the S4 oracle; loop bounds are the buffer sizes (complete).',
+}
+
+STRIP_LEAVES = ['strip_leaf_predicates', 'strip_utf8_add_eq_s5', 'strip_s5_bounded_depth']
+VT_TABLE = {'crate': 'anstyle-parse', 'harnesses': ['vt_table_state_change_eq_spec', 'vt_table_unpack_total'], 'timeout': 600, 'flags': ['-Z', 'valid-value-checks']}
+PROPS['C01'] = {
+    'level': 'proof',
+    'functions': ['anstream::adapter::strip::{next_bytes,next_str,is_printable_bytes,is_utf8_continuation}', 'anstyle_parse::state::{state_change,state_change_,unpack}',
+                  'anstream::adapter::strip::Utf8Parser::add'],
+    'quick': {'verus': ['strip_scan'], 'kani': [VT_TABLE,
+        {'crate': 'anstream', 'harnesses': STRIP_LEAVES + ['strip_next_bytes_onecall_n3', 'strip_next_str_onecall_n3'], 'timeout': 900}]},
+    'thorough': {'verus': ['strip_scan'], 'kani': [VT_TABLE,
+        {'crate': 'anstream', 'harnesses': STRIP_LEAVES + ['strip_next_bytes_onecall_n5', 'strip_next_str_onecall_n4'], 'timeout': 3000}]},
+    'bounded': {'strip_next_bytes_onecall_n3': 'twin of the Verus proof on the un-desugared function: one call, inputs <= 3 bytes, any carried state',
+                'strip_next_str_onecall_n3': 'twin of the Verus proof: one call, valid UTF-8 inputs <= 3 bytes; also discharges valid-UTF-8-piece (C04) for that bound',
+                'strip_next_bytes_onecall_n5': 'as n3 with inputs <= 5 bytes', 'strip_next_str_onecall_n4': 'as n3 with inputs <= 4 bytes'},
+    'assumptions': ['std Iterator::position / iter().copied() semantics (rule E8a desugaring), cross-checked by the bounded Kani twins on the un-desugared functions',
+                    'utf8parse crate: behaviour of Parser::advance as compiled by Kani (trace-equivalence with S5 is proved, complete)'],
+    'explanation': 'Verus proves for inputs of any length and any carried state that one call of next_bytes/next_str returns exactly the next maximal run of model-visible bytes as a sub-slice, leaves the rest, and carries the model state; leaves (table, predicates, UTF-8 accumulator) are discharged completely by Kani.',
 }
